@@ -154,3 +154,31 @@ func TestVerifReplayImport(t *testing.T) {
 		t.Fatal("a failed composite operation panicked or left a trace")
 	}
 }
+
+// Index catalog operations on a missing collection return ErrCollectionNotExist; they do not panic (C14, C20).
+func TestVerifReplayListIndexesMissing(t *testing.T) {
+	db, err := Open(t.TempDir())
+	if err != nil {
+		t.Fatal(err)
+	}
+	defer db.Close()
+	failed := false
+	func() {
+		defer func() {
+			if e := recover(); e != nil {
+				fmt.Printf("REPLAY FAIL scenario: ListIndexes on a missing collection panics: %v\n", e)
+				failed = true
+			}
+		}()
+		_, err := db.ListIndexes("nosuch")
+		if !errors.Is(err, ErrCollectionNotExist) {
+			fmt.Printf("REPLAY FAIL scenario: ListIndexes on a missing collection returned %v\n", err)
+			failed = true
+		} else {
+			fmt.Printf("REPLAY PASS scenario: ListIndexes on a missing collection returned %v\n", err)
+		}
+	}()
+	if failed {
+		t.Fatal("ListIndexes on a missing collection")
+	}
+}
